@@ -70,6 +70,9 @@ pub struct SwarmPlan {
     pub steps: Vec<SStep>,
     /// closing phase: order of spanning-tree edges as (child, parent-choice) seeds
     pub tree: Vec<u8>,
+    /// bit i: node i holds the document read-only (it cannot write, but receives and relays)
+    #[serde(default)]
+    pub read_only: u8,
 }
 
 impl Scenario for Swarm {
@@ -119,6 +122,8 @@ impl Scenario for Swarm {
             skew: (0..nodes).map(|_| if self.big_skew { rng.range(0, 7200) as i32 - 3600 } else { rng.range(0, 480) as i32 - 240 }).collect(),
             steps,
             tree: (0..16).map(|_| rng.below(256) as u8).collect(),
+            // a quarter of the runs with three or more nodes: one node is a read-only relay
+            read_only: if nodes >= 3 && rng.chance(1, 4) { 1 << rng.below(nodes as u64) } else { 0 },
         }
     }
 
@@ -137,11 +142,17 @@ impl Scenario for Swarm {
             let mut p = plan.clone();
             p.nodes -= 1;
             p.skew.truncate(p.nodes as usize);
+            p.read_only &= (1 << p.nodes) - 1;
             p.steps.retain(|s| match s {
                 SStep::Write { n, .. } | SStep::Delete { n, .. } | SStep::Tick { n, .. } | SStep::Restart { n, .. } | SStep::Bulk { n, .. } => *n < p.nodes,
                 SStep::SessionStart { a, b } => *a < p.nodes && *b < p.nodes,
                 _ => true,
             });
+            out.push(p);
+        }
+        if plan.read_only != 0 {
+            let mut p = plan.clone();
+            p.read_only = 0;
             out.push(p);
         }
         if plan.skew.iter().any(|s| *s != 0) {
@@ -160,7 +171,7 @@ impl Scenario for Swarm {
     }
 
     fn rule(&self) -> String {
-        "A run is 8-60 steps over 2-5 nodes with clock skew within ±4 min: in half of the runs most nodes first write 4-40 distinct keys of one length whose broadcasts are all lost (so that sessions have dozens of entries to move and a cut leaves them half way); then local writes and prefix deletions, broadcast of each local insert to the other nodes through SimNet (deliver in any order, drop, duplicate, partition/heal), sessions between pairs advanced frame by frame and cut (EOF/reset) at any frame, clean restarts and (in half of the runs) crashes with loss model L1/L2, virtual-time advances; then a closing phase of complete sessions along a random spanning tree until one round is silent (budget nodes+1 rounds). Non-trivial: at least one fault kind fired.".into()
+        "A run is 8-60 steps over 2-5 nodes with clock skew within ±4 min (in a quarter of the runs with three or more nodes one of them holds the document read-only: it cannot write but receives and relays): in half of the runs most nodes first write 4-40 distinct keys of one length whose broadcasts are all lost (so that sessions have dozens of entries to move and a cut leaves them half way); then local writes and prefix deletions, broadcast of each local insert to the other nodes through SimNet (deliver in any order, drop, duplicate, partition/heal), sessions between pairs advanced frame by frame and cut (EOF/reset) at any frame, clean restarts and (in half of the runs) crashes with loss model L1/L2, virtual-time advances; then a closing phase of complete sessions along a random spanning tree until one round is silent (budget nodes+1 rounds). Non-trivial: at least one fault kind fired.".into()
     }
 }
 
@@ -226,7 +237,7 @@ impl Sess {
     }
 }
 
-async fn boot(i: u8, clock: u64, image: Option<Vec<u8>>) -> Res<SimNode> {
+async fn boot(i: u8, clock: u64, image: Option<Vec<u8>>, read_only: bool) -> Res<SimNode> {
     let w = world();
     let ns = w.doc_id(0);
     let disk = match image {
@@ -236,7 +247,8 @@ async fn boot(i: u8, clock: u64, image: Option<Vec<u8>>) -> Res<SimNode> {
     let fresh = disk.0.lock().unwrap().ops == 0 && disk.image().is_empty();
     let mut store = Store::verif_with_backend(disk.clone()).map_err(|e| Violation::new("open-fails/restart", format!("node {i}: reopening the store failed: {e:#}")))?;
     if fresh {
-        store.import_namespace(iroh_docs::Capability::Write(w.docs[0].clone())).map_err(|e| harness(format!("{e:#}")))?;
+        let cap = if read_only { iroh_docs::Capability::Read(ns) } else { iroh_docs::Capability::Write(w.docs[0].clone()) };
+        store.import_namespace(cap).map_err(|e| harness(format!("{e:#}")))?;
         for a in 0..2 {
             store.import_author(w.authors[a].clone()).map_err(|e| harness(format!("{e:#}")))?;
         }
@@ -315,7 +327,7 @@ async fn run(plan: &SwarmPlan, cx: &mut Cx, big_skew: bool) -> Res {
     let mut nodes: Vec<SimNode> = Vec::new();
     for i in 0..n {
         let clock = (BASE as i64 + plan.skew.get(i).copied().unwrap_or(0) as i64 * 1_000_000) as u64;
-        nodes.push(boot(i as u8, clock, None).await?);
+        nodes.push(boot(i as u8, clock, None, (plan.read_only >> i) & 1 == 1).await?);
     }
     let mut net: Vec<Gossip> = Vec::new();
     let mut partition: u8 = 0; // nodes with bit set are on the other side
@@ -352,6 +364,9 @@ async fn run(plan: &SwarmPlan, cx: &mut Cx, big_skew: bool) -> Res {
                 let Some(nd) = nodes[i].node.as_ref() else { continue };
                 let (hash, len) = content(*c);
                 let r = nd.handle.insert_local(ns, w.author_id(*a), k.clone().into(), hash, len).await;
+                if r.is_err() && (plan.read_only >> i) & 1 == 1 {
+                    cx.probe("write_refused_on_read_only_relay");
+                }
                 cx.ev("write", format!("n{i} a{a} {} #{c} -> {}", hex::encode(k), r.is_ok()));
             }
             SStep::Delete { n: i, a, k } => {
@@ -508,7 +523,7 @@ async fn run(plan: &SwarmPlan, cx: &mut Cx, big_skew: bool) -> Res {
                         img
                     }
                 };
-                let mut fresh = boot(i as u8, nodes[i].clock, Some(image)).await?;
+                let mut fresh = boot(i as u8, nodes[i].clock, Some(image), (plan.read_only >> i) & 1 == 1).await?;
                 fresh.acked = std::mem::take(&mut nodes[i].acked);
                 fresh.dirty_crashes = nodes[i].dirty_crashes;
                 fresh.peer_id = nodes[i].peer_id;
@@ -552,12 +567,15 @@ async fn run(plan: &SwarmPlan, cx: &mut Cx, big_skew: bool) -> Res {
         held_union.extend(d.doc.entries().cloned());
         drop(store);
         let img = nodes[i].disk.image();
-        let mut fresh = boot(i as u8, nodes[i].clock, Some(img)).await?;
+        let mut fresh = boot(i as u8, nodes[i].clock, Some(img), (plan.read_only >> i) & 1 == 1).await?;
         fresh.acked = std::mem::take(&mut nodes[i].acked);
         fresh.peer_id = nodes[i].peer_id;
         nodes[i] = fresh;
     }
     let expected = RefDoc::join(held_union.iter());
+    if plan.read_only != 0 {
+        cx.probe("read_only_relay_in_swarm");
+    }
     if big_skew {
         cx.fault("clock_skew_beyond_future_bound");
     }
